@@ -59,7 +59,11 @@ def render(kind, n, rel, meta=None):
         return {"host.f90": "module hostm\ncontains\n  subroutine host0()\n" + "".join(f"    call q{i}()\n" for i in range(1, n + 1)) + "  contains\n" + inner
                             + "  end subroutine host0\nend module hostm\n"}
     if kind == "calls":
-        body = "".join(f"  subroutine p{i}()\n" + md(i, "    ") + "".join(f"    call p{j}()\n" for j in succ[i]) + f"  end subroutine p{i}\n" for i in range(1, n + 1))
+        # besides its calls, p_i subscripts a local array that carries the name of a procedure it does NOT call: no edge
+        def shadow(i):
+            k = next((k for k in range(1, n + 1) if k != i and k not in succ[i]), None)
+            return (f"    real :: p{k}(3), zz{i}\n", f"    zz{i} = p{k}(2)\n") if k else ("", "")
+        body = "".join(f"  subroutine p{i}()\n" + md(i, "    ") + shadow(i)[0] + "".join(f"    call p{j}()\n" for j in succ[i]) + shadow(i)[1] + f"  end subroutine p{i}\n" for i in range(1, n + 1))
         return {"procs.f90": f"module procs\ncontains\n{body}end module procs\n"}
     if kind == "comp":
         body = "".join(f"  type :: t{i}\n" + md(i, "    ") + f"    integer :: own{i}\n" + "".join(f"    type(t{j}), pointer :: c{i}_{j}\n" for j in succ[i]) + f"  end type t{i}\n"
